@@ -202,22 +202,72 @@ theorem kf1_history_chunking :
     (do sendall {} 1 multiSubExec; sendall {} 1 ping : M Unit).run s0 = (sendall {} 1 (multiSubExec ++ ping)).run s0 :=
   sendall_append {} 1 multiSubExec ping s0 kf1_history_alive.2.1
 
-/-- `MULTI`, `EVAL "return 1" 0`, `EXEC`: outside the model (script commands inside MULTI are not modelled) -/
+/-- `MULTI`, `EVAL "return 1" 0`, `EXEC` pipelined -/
 def multiEvalExec : Bytes :=
   encodeRequest [strBytes "multi"] ++ encodeRequest [strBytes "eval", strBytes "return 1", strBytes "0"] ++
     encodeRequest [strBytes "exec"]
 
-/-- **What is left of the side condition inside the model.**  A script command queued in a MULTI is answered by the
-model with `NoResponse` and the `fault` marker ("command not modelled"): the run is declared unfaithful, and EXEC then
-takes the assertion path, so the model connection dies.  On such a run the two ways of writing differ exactly as
-before; this is a statement about the model's gap, not about fakeredis (no claim is made on faulted runs). -/
-theorem model_gap_still_dies :
-    (connOf s0 1).dead = false ∧
-    (connOf ((sendall {} 1 multiEvalExec).run s0).2 1).dead = true ∧
-    ((sendall {} 1 multiEvalExec).run s0).2.fault = some "model: command not modelled: eval" ∧
-    ((do sendall {} 1 multiEvalExec; sendall {} 1 ping : M Unit).run s0).2.crashed = some "StopIteration" ∧
-    ((sendall {} 1 (multiEvalExec ++ ping)).run s0).2.crashed = some "AssertionError" := by
+/-- what the host records for a run of the script that ends in the Lua error `boom`: the SHA-1 of the source and the
+error message.  (The hint of a *returned* Lua value goes through the hint parser `LuaVal.parse`, which is defined by
+well-founded recursion and cannot be evaluated by `decide`; for returned values see `FR.Props.C19m`.) -/
+def evalHints : List (List Bytes) :=
+  [[strBytes "sha", strBytes "e0e1f9fabfc9d4800c877a703b823ac0578ff8db"], [strBytes "luaerror", strBytes "boom"]]
+
+/-- `s0` with the hints of that run -/
+def s0e : Sys := { s0 with picks := evalHints }
+
+/-- **A script command queued in a MULTI is run by EXEC like a direct one** (replaces `model_gap_still_dies`, which
+asserted `dead = true`, `fault = some "model: command not modelled: eval"` and `crashed = some "AssertionError"` for
+this very request stream while the model had no queued scripts).  After `MULTI / EVAL … 0 / EXEC` the connection is
+alive, no exception escaped, the run is faithful (`fault = none`), the hints are used up, the replies are `+OK`,
+`+QUEUED` and the one-element array holding the script's error, the connection is back in normal mode and the script
+is cached. -/
+theorem multi_eval_exec_alive :
+    (connOf ((sendall {} 1 multiEvalExec).run s0e).2 1).dead = false ∧
+    ((sendall {} 1 multiEvalExec).run s0e).2.crashed = none ∧
+    ((sendall {} 1 multiEvalExec).run s0e).2.fault = none ∧
+    ((sendall {} 1 multiEvalExec).run s0e).2.picks = [] ∧
+    ((sendall {} 1 multiEvalExec).run s0e).2.out.reverse.map (fun p => (p.1, p.2.render)) =
+      [(1, Reply.ok.render), (1, Reply.queued.render),
+       (1, (Reply.arr [.err (strBytes (scriptErrorMsg (strBytes "e0e1f9fabfc9d4800c877a703b823ac0578ff8db") "boom"))]).render)] ∧
+    (connOf ((sendall {} 1 multiEvalExec).run s0e).2 1).tx = none ∧
+    ((sendall {} 1 multiEvalExec).run s0e).2.srv.scripts =
+      [(strBytes "e0e1f9fabfc9d4800c877a703b823ac0578ff8db", strBytes "return 1")] := by
   decide +kernel
+
+/-- … so the chunking theorem applies to it -/
+theorem multi_eval_exec_chunking :
+    (do sendall {} 1 multiEvalExec; sendall {} 1 ping : M Unit).run s0e = (sendall {} 1 (multiEvalExec ++ ping)).run s0e :=
+  sendall_append {} 1 multiEvalExec ping s0e multi_eval_exec_alive.1
+
+/-- `MULTI`, `SCRIPT LOAD "return 1"`, `EXEC`: the array holds the SHA-1, the script is cached -/
+def multiLoadExec : Bytes :=
+  encodeRequest [strBytes "multi"] ++ encodeRequest [strBytes "script", strBytes "load", strBytes "return 1"] ++
+    encodeRequest [strBytes "exec"]
+
+theorem multi_script_load_exec_alive :
+    let s := { s0 with picks := [[strBytes "sha", strBytes "e0e1f9fabfc9d4800c877a703b823ac0578ff8db"]] }
+    (connOf ((sendall {} 1 multiLoadExec).run s).2 1).dead = false ∧
+    ((sendall {} 1 multiLoadExec).run s).2.crashed = none ∧
+    ((sendall {} 1 multiLoadExec).run s).2.fault = none ∧
+    ((sendall {} 1 multiLoadExec).run s).2.out.reverse.map (fun p => (p.1, p.2.render)) =
+      [(1, Reply.ok.render), (1, Reply.queued.render),
+       (1, (Reply.arr [.bulk (strBytes "e0e1f9fabfc9d4800c877a703b823ac0578ff8db")]).render)] ∧
+    ((sendall {} 1 multiLoadExec).run s).2.srv.scripts =
+      [(strBytes "e0e1f9fabfc9d4800c877a703b823ac0578ff8db", strBytes "return 1")] := by
+  decide +kernel
+
+/-- without the hints of the host the run is declared unfaithful (`fault`: the replay cannot follow the script) - that
+is not an exception of the implementation: nothing crashes, the connection lives, and the two ways of writing agree -/
+theorem multi_eval_exec_unhinted :
+    (connOf ((sendall {} 1 multiEvalExec).run s0).2 1).dead = false ∧
+    ((sendall {} 1 multiEvalExec).run s0).2.crashed = none ∧
+    ((sendall {} 1 multiEvalExec).run s0).2.fault = some "eval: sha hint missing" ∧
+    (do sendall {} 1 multiEvalExec; sendall {} 1 ping : M Unit).run s0 = (sendall {} 1 (multiEvalExec ++ ping)).run s0 := by
+  have h : (connOf ((sendall {} 1 multiEvalExec).run s0).2 1).dead = false ∧
+      ((sendall {} 1 multiEvalExec).run s0).2.crashed = none ∧
+      ((sendall {} 1 multiEvalExec).run s0).2.fault = some "eval: sha hint missing" := by decide +kernel
+  exact ⟨h.1, h.2.1, h.2.2, sendall_append {} 1 multiEvalExec ping s0 h.1⟩
 
 /-! ## 6. non-vacuity -/
 
@@ -251,8 +301,13 @@ example : (sendChunks {} 1 [chunkA, chunkB]).run s0 = (sendall {} 1 (chunkA ++ c
 example : (sendChunks {} 1 ((chunkA ++ chunkB).map fun x => [x])).run s0 = (sendall {} 1 (chunkA ++ chunkB)).run s0 :=
   all_chunkings_agree {} 1 (chunkA ++ chunkB) s0 (by decide +kernel) _ (by decide) (by decide +kernel)
 
-/-- `sendall_append_dead` applies to the faulted model run of section 5 (its hypotheses are satisfiable in the model) -/
-example : (sendall {} 1 (multiEvalExec ++ ping)).run s0 = ((), appendBuf 1 ping ((sendall {} 1 multiEvalExec).run s0).2) :=
-  sendall_append_dead {} 1 multiEvalExec ping s0 (by decide +kernel) (by decide +kernel)
+/-- a state no history reaches (`FR.Props.C04k`): the queue of connection 1 holds a name that is not a command -/
+def sBadQueue : Sys := { srv := { conns := [{ id := 1, tx := some [("nosuchcommand", [])] }] }, clocks := [1, 2, 3, 4, 5, 6] }
+
+/-- the hypotheses of `sendall_append_dead` are satisfiable in the model - from such an unreachable state only: there
+EXEC meets the unknown queued name, the assertion path is taken and the connection dies -/
+example : (sendall {} 1 (encodeRequest [strBytes "exec"] ++ ping)).run sBadQueue =
+    ((), appendBuf 1 ping ((sendall {} 1 (encodeRequest [strBytes "exec"])).run sBadQueue).2) :=
+  sendall_append_dead {} 1 (encodeRequest [strBytes "exec"]) ping sBadQueue (by decide +kernel) (by decide +kernel)
 
 end FR.Props.C04s
